@@ -326,6 +326,7 @@ pub fn run(run: &mut Run) {
     run.rule = "documents of 1-5 generated lines (G-TEXT sentences, known-bad sentences, astral / combining / tab prefixes) with LF, CRLF and blank-line separators, with and without trailing newline, opened in the real harper-ls under 9 language ids; for every published diagnostic one codeAction request with its own range and one zero-width request at every char position inside it (<=40). Oracle: independent LSP position arithmetic (UTF-16 columns, lines split at \\n): diagnostic range == reference range of the lint carried in the answer, every inside position returns that lint's fixes, each TextEdit applied like a client == Suggestion::apply on the char span == reference splice; for plain/Markdown/HTML/Typst the published set equals the in-process lints. Non-trivial = lint on a later line, astral char before a lint on its line, or lint on the last line without trailing newline.".into();
     let n = run.n(1_000, 10_000);
     run.threads = run.threads.min(8);
+    run.max_shrink_iters = 80;
     run.prop("editor_round_trip", n, editor_case, test_editor);
     run.require_class("editor_round_trip", "lint_on_later_line", (n / 4) as u64);
     run.require_class("editor_round_trip", "astral_before_lint_on_line", (n / 20) as u64);
